@@ -59,6 +59,8 @@ type Exec struct {
 	topStar bool
 	ghostSorts map[string]string
 	entryAlloc Term
+	topCt *Contract
+	nepoch int
 	boxInfo map[string]boxed
 	curCall *ssa.CallCommon
 	curFrame *frame
@@ -182,8 +184,12 @@ func (e *Exec) heapComp(st *State, name, idxSort, elemSort string) Term {
 	if t, ok := st.heap[name]; ok {
 		return t
 	}
-	// not yet touched on this path: the initial symbol (shared by all states of this function)
+	// not yet touched on this path: the initial symbol of the current heap epoch (epoch 0 = function
+	// entry; a call of unknown code starts a new epoch in which nothing is known about any component)
 	sym := "H." + smtIdent(name) + "!0"
+	if st.epoch > 0 {
+		sym = fmt.Sprintf("H.%s!e%d", smtIdent(name), st.epoch)
+	}
 	e.smt.declare(sym, elemSort)
 	_ = idxSort
 	t := Term{sym, elemSort}
@@ -285,6 +291,11 @@ func (e *Exec) wfInitial(name string, elem bool, sort string, t types.Type) {
 	} else {
 		sel = Term{fmt.Sprintf("(select %s wr)", sym), e.ti.sortOf(t)}
 		bound = "(wr Int)"
+	}
+	if !elem {
+		// the nil object has no fields: reading one (only possible in specifications, e.g. a modifies
+		// clause naming a field of a mailbox that does not exist yet) yields the zero value
+		e.smt.axioms = append(e.smt.axioms, fmt.Sprintf("(assert (= (select %s 0) %s))", sym, e.ti.zero(t).S))
 	}
 	f := e.wellTyped(tmp, t, sel)
 	if f.S == "true" {
@@ -507,6 +518,7 @@ type frame struct {
 	curIns []edgeIn
 	curBlock *ssa.BasicBlock
 	iterPos map[ssa.Value]*Cell
+	iterCount map[ssa.Value]*Cell
 	iterOf  map[ssa.Value]Value
 	entryState *State
 	bindings []Value
@@ -687,7 +699,26 @@ func (e *Exec) merge(ins []edgeIn) *State {
 	if len(ins) == 1 {
 		return ins[0].st
 	}
-	out := &State{cells: map[*Cell]Value{}, heap: map[string]Term{}, locks: map[string]int{}, oldMode: ins[0].st.oldMode}
+	out := &State{cells: map[*Cell]Value{}, heap: map[string]Term{}, locks: map[string]int{}, oldMode: ins[0].st.oldMode, epoch: ins[0].st.epoch}
+	for _, in := range ins[1:] {
+		if in.st.epoch != out.epoch {
+			// paths with different heap epochs: materialise every component either side knows about, the
+			// merged state continues in the epoch of the first path with explicit per-component merges
+			for _, in2 := range ins {
+				for _, in3 := range ins {
+					for k, t := range in3.st.heap {
+						if _, ok := in2.st.heap[k]; !ok {
+							in2.st.heap[k] = e.heapComp(in2.st, k, SInt, t.Sort)
+						}
+					}
+				}
+			}
+			e.nepoch++
+			out.epoch = e.nepoch
+			e.note("a join of paths with different heap epochs (one of them called unknown code) forgets untouched components")
+			break
+		}
+	}
 	var pcs []Term
 	for _, in := range ins {
 		pcs = append(pcs, in.st.pc)
@@ -710,12 +741,21 @@ func (e *Exec) merge(ins []edgeIn) *State {
 	sort.Slice(cs, func(i, j int) bool { return cs[i].id < cs[j].id })
 	for _, c := range cs {
 		var vals []Value
+		missing, nonTerm := false, false
 		for _, in := range ins {
 			v, ok := in.st.cells[c]
 			if !ok {
+				missing = true
 				v = e.ti.zero(c.typ)
+			} else if _, isT := v.(Term); !isT {
+				nonTerm = true
 			}
 			vals = append(vals, v)
+		}
+		if missing {
+			// a local declared on only some of the merged paths is dead after the join: drop it
+			_ = nonTerm
+			continue
 		}
 		out.cells[c] = e.mergeVals(c.name, ins, vals)
 	}
@@ -844,7 +884,7 @@ func (e *Exec) run(fn *ssa.Function, args []Value, bindings []Value, st *State, 
 		return nil, st
 	}
 	fr := &frame{fn: fn, vals: map[ssa.Value]Value{}, cells: map[*ssa.Alloc]*Cell{}, c: c, bindings: bindings,
-		iterPos: map[ssa.Value]*Cell{}, iterOf: map[ssa.Value]Value{}, args: args, rangeIdxCell: map[*ssa.BasicBlock]*Cell{}}
+		iterPos: map[ssa.Value]*Cell{}, iterCount: map[ssa.Value]*Cell{}, iterOf: map[ssa.Value]Value{}, args: args, rangeIdxCell: map[*ssa.BasicBlock]*Cell{}}
 	for i, p := range fn.Params {
 		if i < len(args) {
 			fr.vals[p] = args[i]
